@@ -131,6 +131,8 @@ fn g_push_raw(raw: u64) {
   g_append(lo(raw), hi(raw), if sp_full(raw) { 2 } else { 1 });
 }
 pub(crate) fn g_snapshot() -> (u64, u8, u8, bool) { unsafe { (G_LAST_HI, G_STATE, G_COUNT, G_OK) } }
+pub(crate) fn g_npush() -> u32 { unsafe { G_NPUSH } }
+impl BMOCBuilderUnsafe { pub(crate) fn depth_max_is(&self, d: u8) -> bool { self.depth_max == d } }
 
 pub(crate) fn ghost_new(depth_max: u8, _capacity: usize) -> BMOCBuilderUnsafe { unsafe { G_STUBBED = true; } BMOCBuilderUnsafe { depth_max, entries: None } }
 pub(crate) fn ghost_push(b: &mut BMOCBuilderUnsafe, depth: u8, hash: u64, is_full: bool) -> &mut BMOCBuilderUnsafe {
@@ -141,6 +143,13 @@ pub(crate) fn ghost_push(b: &mut BMOCBuilderUnsafe, depth: u8, hash: u64, is_ful
   b
 }
 fn ghost_push_raw(b: &mut BMOCBuilderUnsafe, raw: u64) -> &mut BMOCBuilderUnsafe { g_push_raw(raw); b }
+/// contract of push_all: the cells from_hash..to_hash of the given depth, in order, all with the given flag
+pub(crate) fn ghost_push_all(b: &mut BMOCBuilderUnsafe, depth: u8, from_hash: u64, to_hash: u64, are_full: bool) -> &mut BMOCBuilderUnsafe {
+  assert!(depth <= b.depth_max && to_hash <= n_hash(depth), "C09 push_all range in range");
+  let dd = b.depth_max - depth;
+  if from_hash < to_hash { g_append(shl(from_hash, dd), shl(to_hash, dd), if are_full { 2 } else { 1 }); }
+  b
+}
 fn ghost_to_bmoc(b: &mut BMOCBuilderUnsafe) -> BMOC { BMOC { depth_max: b.depth_max, entries: Box::new([]) } }
 
 /// Same observable behaviour as <BMOCIter as Iterator>::next (first remaining raw value decoded by
